@@ -296,7 +296,31 @@ func VerifC17Catalogue() {
 		nm := "s" + string(rune('0'+step))
 		var err1, err2 error
 		id := "C17c"
-		switch nd.Choice("op", 8) {
+		switch nd.Choice("op", 10) {
+		case 8: // UpdateTable that only declares an attribute (no index update)
+			err1 = catch(func() error {
+				_, e := c1.UpdateTable(&ddb1.UpdateTableInput{TableName: aws1.String(tbl), AttributeDefinitions: []*ddb1.AttributeDefinition{{AttributeName: aws1.String("d"), AttributeType: aws1.String("S")}}})
+				return e
+			})
+			err2 = catch(func() error {
+				_, e := c2.UpdateTable(ctx, &ddb2.UpdateTableInput{TableName: aws2.String(tbl), AttributeDefinitions: []types2.AttributeDefinition{{AttributeName: aws2.String("d"), AttributeType: types2.ScalarAttributeTypeS}}})
+				return e
+			})
+			id = "C17c-declare-attribute"
+		case 9: // UpdateTable that creates an index on d without declaring d in the same request
+			err1 = catch(func() error {
+				_, e := c1.UpdateTable(&ddb1.UpdateTableInput{TableName: aws1.String(tbl), GlobalSecondaryIndexUpdates: []*ddb1.GlobalSecondaryIndexUpdate{{
+					Create: &ddb1.CreateGlobalSecondaryIndexAction{IndexName: aws1.String("dix"), KeySchema: []*ddb1.KeySchemaElement{{AttributeName: aws1.String("d"), KeyType: aws1.String("HASH")}},
+						Projection: &ddb1.Projection{ProjectionType: aws1.String("ALL")}}}}})
+				return e
+			})
+			err2 = catch(func() error {
+				_, e := c2.UpdateTable(ctx, &ddb2.UpdateTableInput{TableName: aws2.String(tbl), GlobalSecondaryIndexUpdates: []types2.GlobalSecondaryIndexUpdate{{
+					Create: &types2.CreateGlobalSecondaryIndexAction{IndexName: aws2.String("dix"), KeySchema: []types2.KeySchemaElement{{AttributeName: aws2.String("d"), KeyType: types2.KeyTypeHash}},
+						Projection: &types2.Projection{ProjectionType: types2.ProjectionTypeAll}}}}})
+				return e
+			})
+			id = "C17c-create-index-on-declared-attribute"
 		case 0: // CreateTable
 			withRange, withGSI, withLSI := nd.Bool(nm+".range"), nd.Bool(nm+".gsi"), nd.Bool(nm+".lsi")
 			billing := nd.Choice(nm+".billing", 3)
@@ -442,7 +466,7 @@ func VerifC17Catalogue() {
 			o1, se1 := c1.Scan(&ddb1.ScanInput{TableName: aws1.String(tbl)})
 			o2, se2 := c2.Scan(ctx, &ddb2.ScanInput{TableName: aws2.String(tbl)})
 			nd.Assert(se1 == nil && se2 == nil && sameItems(o1.Items, o2.Items), id+"-same-contents")
-			for _, idx := range []string{"gsi", "late", "lsi"} {
+			for _, idx := range []string{"gsi", "late", "lsi", "dix"} {
 				var i1 []item1
 				var i2 []item2
 				ie1 := catch(func() error {
